@@ -10,7 +10,7 @@ TIES = ["errors_Error", "errors_ClientError", "errors_errorToPbError", "errors_d
         "iso_ConvertToGrpc", "external_Create", "external_SetReader", "external_Set", "external_Get", "external_GetReader",
         "external_GetKeys", "external_Delete", "external_Begin", "external_tx_ctx", "external_tx_Commit", "external_tx_Rollback",
         "grpc_SetFile", "grpc_GetFile", "srv_ContextInterceptor", "srv_ContextStreamInterceptor", "streamwriter_Write",
-        "streamwriter_Close", "streamwriter_New", "streamreader_Read", "di_StoreService", "app_New"]
+        "streamwriter_Close", "streamwriter_sendErr", "streamwriter_New", "streamreader_Read", "di_StoreService", "app_New"]
 TRUSTED_BASE = [
     "Lean 4.33.0 kernel; axioms per theorem under coverage.theorems",
     "models FsDb/Model/Wire.lean (error sets, codes, levels, chunked writer/reader); gRPC itself, protobuf, metadata transport and the interceptors are NOT modelled: validated by replaying generated histories through a real server on loopback",
